@@ -80,7 +80,7 @@ fn c20_children_all_sizes() {
             assert!(a.parent == p && a.sibling == r);
             assert!(b.parent == p && b.sibling == l);
         }
-        _ => assert!(false),
+        _ => { assert!(false) }
     }
     kani::cover!(p == root, "p is the root");
     kani::cover!(p.trailing_ones() == 1, "children are leaves");
